@@ -396,6 +396,13 @@ _OMD = _OMD + _cls_methods(OMD, 'boltons.dictutils', [
     {'py': 'popitem', 'name': 'popitem', 'params': {}, 'result': 'κ × ν', 'loop_fuel': True, 'key_locals': ['k'],
      'tie_theorem': 'C01.src_popitem_eq_model'},
 ])
+# the readers `self[k]` and `getlist(k[, default])` (K4: the item of `dict.__getitem__(self, k)` bound first)
+_OMD = _OMD + _cls_methods(OMD, 'boltons.dictutils', [
+    {'py': '__getitem__', 'name': 'getitem', 'params': {'k': 'κ'}, 'result': 'ν',
+     'tie_theorem': 'C01.src_getitem_eq_model'},
+    {'py': 'getlist', 'name': 'getlist', 'params': {'k': 'κ', 'default': 'Option (List ν)'}, 'result': 'List ν',
+     'tie_theorem': 'C01.src_getlist_eq_model'},
+])
 OMD['methods'] = _OMD
 for _sp in _OMD:
     _sp['gen_file'] = 'dictutils_omd'
